@@ -597,6 +597,70 @@ def registries_are_separate_along_a_path(col):
         if not ok or not (before.ok and before.value == 'sub'):
             col.violation('C01/registered-get-handler-not-used:registered-after-an-earlier-walk', 'Glommer: %r on a SubNode gave %r, then register(Node, get=tagged), '
                           'then %r gives %r (expected the tagged access of the registered base class)' % ('r.name', before, spec, got), None)
+    # ... and the same for an exact registration (which says nothing about subclasses): instances of exactly that type use it from
+    # then on, instances of subclasses keep the plain attribute access
+    warm2 = Glommer()
+    ex_target = lambda: {'r': Node('exactly', x=SubNode('unused')), 's': SubNode('below')}
+    before = [call(warm2.glom, ex_target(), sp) for sp in ('r.name', 's.name', 'r.nope.q')]
+    warm2.register(Node, get=tagged, exact=True)
+    for spec, want in (('r.name', ('custom', 'exactly')), (Path('r', 'name'), ('custom', 'exactly')), ('s.name', 'below'), ('r.nope.q', ('pae', 1)),
+                       (Path('s', 'zz'), ('pae', 1))):
+        got = call(warm2.glom, ex_target(), spec)
+        col.case(('registries-separate', 'exact-registration-after-a-walk', short(spec)), True)
+        if isinstance(want, tuple) and want[0] == 'pae':
+            col.count('failing_paths')
+            ok = (not got.ok) and isinstance(got.exc, PathAccessError) and got.exc.part_idx == want[1]
+        elif isinstance(want, tuple):
+            col.count('valid_paths')
+            ok = got.ok and isinstance(got.value, tuple) and got.value[0] == 'custom' and got.value[1] == 'exactly'
+        else:
+            col.count('valid_paths')
+            ok = got.ok and got.value == want
+        if not ok:
+            col.violation('C01/registered-get-handler-not-used:exact-registration-after-an-earlier-walk', 'Glommer: walks %r, then register(Node, get=tagged, '
+                          'exact=True), then %r gives %r (expected %r)' % (before, spec, got, want), None)
+
+    # the lookup of a segment may itself fail with a PathAccessError (an accessor that is written with glom): it is the failure of THAT
+    # segment of THIS path like any other exception
+    class Doc:
+        def __init__(self, data):
+            self._data = data
+
+        @property
+        def title(self):
+            return G(self._data, 'meta.title')
+
+        def __getattr__(self, k):
+            if k.startswith('_'):
+                raise AttributeError(k)
+            return G(self._data, Path('fields', k))
+
+    def via_glom(o, k):
+        return G(o.kids, Path('by', 'name', k))
+    gg = Glommer()
+    gg.register(Node, get=via_glom)
+    doc = lambda: {'docs': [Doc({'meta': {}, 'fields': {'n': 1}}), Doc({'meta': {'title': 't'}, 'fields': {}})], 'node': Node('x', by={'name': {'k': 7}})}
+    for runner_name, runner, spec, want in (
+            ('glom', G, 'docs.0.title', ('pae', 2)), ('glom', G, Path('docs', 0, 'title', 'x'), ('pae', 2)), ('glom', G, 'docs.1.title', 't'),
+            ('glom', G, 'docs.0.n', 1), ('glom', G, 'docs.1.n.real', ('pae', 2)), ('glom', G, Path('docs', 1, 'zz'), ('pae', 2)),
+            ('glom', G, Path(T['docs'][0], 'title'), ('pae', 2)), ('glom', G, Path('docs', T[0], 'title', 'q'), ('pae', 2)),
+            ('glommer', gg.glom, 'node.k', 7), ('glommer', gg.glom, 'node.zz', ('pae', 1)), ('glommer', gg.glom, Path('node', 'zz', 'k'), ('pae', 1)),
+            ('glommer', gg.glom, Path(T['node'], 'zz'), ('pae', 1))):
+        got = call(runner, doc(), spec)
+        col.case(('accessor-written-with-glom', runner_name, short(spec)), True)
+        if isinstance(want, tuple):
+            col.count('failing_paths')
+            ok = (not got.ok) and isinstance(got.exc, PathAccessError) and got.exc.part_idx == want[1] and \
+                isinstance(got.exc.exc, PathAccessError) and repr(got.exc.path) == repr(Path(spec) if not isinstance(spec, str) else Path.from_text(spec))
+        else:
+            col.count('valid_paths')
+            ok = got.ok and got.value == want
+        if not ok:
+            col.violation('C01/failing-lookup-that-raises-a-PathAccessError-is-not-reported-for-its-own-segment',
+                          '%s(%r): %r%s; expected %s' % (runner_name, spec, got, '' if got.ok or not isinstance(got.exc, PathAccessError) else
+                                                       ' (part_idx %r, path %r, carried %r)' % (got.exc.part_idx, got.exc.path, got.exc.exc),
+                                                       'the value %r' % (want,) if not isinstance(want, tuple) else
+                                                       'a PathAccessError for part %d of this path carrying the PathAccessError of the accessor' % want[1]), None)
     for name, runner in (('busy', busy.glom), ('idle', idle.glom), ('created-afterwards', fresh.glom), ('glom', G)):
         for spec, want in cases:
             got = call(runner, mk(), spec)
